@@ -431,6 +431,7 @@ class FileEmitter:
             self.emit_items(it.children, it, indent + "    ")
             self.out.add("}\n\n")
             self.companions_for_impl(it)
+            if it.kind == "impl": self.jsonspec_companion(it)
             return
         # other items: verbatim text minus attrs handled
         body = R.text(it.toks[sum(len(a) for a in it.attrs):]) if False else None
@@ -557,6 +558,15 @@ class FileEmitter:
             self.ctx.log("D-4-from", self.rel, it.line, m.group(0), "impl From<%s> for %s" % (t, en))
             self.ctx.gen_axioms.append((self.rel, en, v, t, "(e)"))
 
+    def jsonspec_companion(self, it):
+        """R-jsonspec: every `impl serde::Serialize for T` gets `impl JsonSpec for T { uninterp spec fn json }` (the JSON tree is fixed by an axiom in contracts/)"""
+        h = re.sub(r"\s+", " ", R.text(it.header)).strip()
+        m = re.match(r"impl\s*(<.*?>)?\s*serde::Serialize for (.+?)(\s+where .*)?$", h)
+        if not m: return
+        g = m.group(1) or ""; ty = m.group(2)
+        self.extra.append("impl%s serde::JsonSpec for %s { uninterp spec fn json(&self) -> serde_json::Value; }\n" % (g, ty))
+        self.ctx.log("R-jsonspec", self.rel, it.line, h, "impl JsonSpec for " + ty)
+
     def companions_for_impl(self, it):
         """R-companion: vstd *SpecImpl companions for From/TryFrom/PartialEq/Add impls (obeys_* = false unless given in vspec items)."""
         if it.kind != "impl": return
@@ -634,8 +644,7 @@ class FileEmitter:
             if re.search(r"\bDisplay\s+for\b", R.text(parent.header)):
                 self.disp_spec(parent, body)
         if spec and spec.external_body: ext = True
-        if parent is not None and parent.kind == "impl" and re.search(r"\bserde::Serialize\s+for\b", R.text(parent.header)) and it.name == "serialize":
-            ext = True   # R-serialize: serde's Serializer protocol is outside the model; `json()` (injected via @implitems) states the produced tree
+
         has_ens = bool(spec and spec.ensures)
         sigtxt = sig_join(d, spec.ret if (spec and d["ret"] is not None) else None)
         chunks = []
@@ -843,7 +852,7 @@ def emit_module(ctx, out, rel, modname, include, stubset, depth=0):
     if modname is not None:
         name = "rp_core" if (modname == "core" and depth == 1) else modname
         out.add("pub mod %s {\n" % name)
-    out.add("#[allow(unused_imports)] use vstd::prelude::*;\n#[allow(unused_imports)] use crate::shim_prelude::*;\n#[allow(unused_imports)] use crate::rp_axioms::*;\n#[allow(unused_imports)] use crate::rp_spec::*;\n#[allow(unused_imports)] use crate::serde::Serialize as _;\n#[allow(unused_imports)] use crate::erased_serde::Serialize as _;\n")
+    out.add("#[allow(unused_imports)] use vstd::prelude::*;\n#[allow(unused_imports)] use crate::shim_prelude::*;\n#[allow(unused_imports)] use crate::rp_axioms::*;\n#[allow(unused_imports)] use crate::rp_spec::*;\n#[allow(unused_imports)] use crate::serde::Serialize as _; use crate::serde::JsonSpec as _;\n#[allow(unused_imports)] use crate::erased_serde::Serialize as _;\n")
     excluded = set()
     for it in items:
         if it.kind == "mod_decl":
@@ -909,7 +918,7 @@ def build(include=None, stubset=(), spec_paths=None, shim_paths=None, out_path=N
     extra_use = ""
     if "generic/mod.rs" in ctx.files: extra_use += "#[allow(unused_imports)] use crate::generic::*;\n"
     if "prelude/mod.rs" in ctx.files: extra_use += "#[allow(unused_imports)] use crate::prelude::*;\n"
-    out.add("pub mod rp_axioms {\nuse vstd::prelude::*;\nuse crate::serde::Serialize as _;\nuse crate::erased_serde::Serialize as _;\nuse crate::shim_prelude::*;\nuse crate::rp_core::*;\nuse crate::rp_core::common::*;\n" + extra_use + "#[allow(unused_imports)] use std::array::TryFromSliceError;\nverus!{\n")
+    out.add("pub mod rp_axioms {\nuse vstd::prelude::*;\nuse crate::serde::Serialize as _; use crate::serde::JsonSpec as _;\nuse crate::erased_serde::Serialize as _;\nuse crate::shim_prelude::*;\nuse crate::rp_core::*;\nuse crate::rp_core::common::*;\n" + extra_use + "#[allow(unused_imports)] use std::array::TryFromSliceError;\nverus!{\n")
     for t in specs.axioms:
         out.add(t + "\n", {"file": "contracts", "part": "axioms"})
     for (rel, en, v, t, ctor) in ctx.gen_axioms:
@@ -924,7 +933,7 @@ def build(include=None, stubset=(), spec_paths=None, shim_paths=None, out_path=N
         jnames += re.findall(r"broadcast\s+(?:axiom|proof)\s+fn\s+(\w+)", t)
         out.add(t + "\n", {"file": "contracts", "part": "axioms"})
     out.add("pub broadcast group group_rp { %s }\npub broadcast group group_rp_json { %s }\n}\n}\n" % (", ".join(names), ", ".join(jnames)))
-    out.add("pub mod rp_spec {\nuse vstd::prelude::*;\nuse crate::serde::Serialize as _;\nuse crate::erased_serde::Serialize as _;\nuse crate::shim_prelude::*;\nuse crate::rp_axioms::*;\nuse crate::rp_core::*;\nuse crate::rp_core::common::*;\n" + extra_use + "verus!{\n")
+    out.add("pub mod rp_spec {\nuse vstd::prelude::*;\nuse crate::serde::Serialize as _; use crate::serde::JsonSpec as _;\nuse crate::erased_serde::Serialize as _;\nuse crate::shim_prelude::*;\nuse crate::rp_axioms::*;\nuse crate::rp_core::*;\nuse crate::rp_core::common::*;\n" + extra_use + "verus!{\n")
     for t in specs.specdefs:
         out.add(t + "\n", {"file": "contracts", "part": "specs"})
     out.add("}\n}\n")
